@@ -376,7 +376,7 @@ Lemma process_result_post r k :
   RI (r_d r') (r_tr r') /\ Pre (r_d r') /\ st_of (r_d r') k <> SNone \/ t_outcome (get_task k) = OInterrupt.
 Proof.
   intros HR He HPx. cbv zeta. unfold Runner.process_result.
-  destruct (t_outcome (get_task k)) eqn:Eo; [| | | |right; reflexivity]; left.
+  destruct (t_outcome (get_task k)) eqn:Eo; [| | | |right; reflexivity|]; left.
   - destruct (skip_post r k SSuccess (ESuccess k) HR He HPx) as (A & B & C & _); try discriminate; try reflexivity.
     + simpl. apply N.eqb_refl.
     + (* the trace carries ESave too *)
@@ -388,6 +388,7 @@ Proof.
   - destruct (handle_error_post r k kind_failed HR He HPx) as (A & B & C & _). auto.
   - destruct (handle_error_post r k kind_error HR He HPx) as (A & B & C & _). auto.
   - destruct (handle_error_gen_post SFailureV r k kind_dep eq_refl ltac:(discriminate) HR He HPx) as (A & B & C & _). auto.
+  - destruct (handle_error_gen_post SFailureV r k kind_failed eq_refl ltac:(discriminate) HR He HPx) as (A & B & C & _). auto.
 Qed.
 
 Lemma noexec_teardowns l : forallb (fun e => negb (is_exec e)) (map ETeardown l) = true.
